@@ -303,6 +303,66 @@ example : Scaled (fun _ r => rankIn ([camRole "default", camRole "publicTranspor
   simp only [List.mem_cons, List.mem_nil_iff, or_false] at hr
   rcases hr with h | h | h <;> subst h <;> decide
 
+/-! ## plain order attributes on heterogeneous selections (round 6)
+
+A PLAIN (undotted) order attribute is located by depth-first search (`findAttrD` = `Utils.find_attribute`) in EVERY
+object on its own: the same name sits at different paths in different message types (`cam.generationDeltaTime` /
+`vam.generationDeltaTime`, `…basicContainer.stationType` / `denm.management.stationType`). -/
+
+/-- **plain_name_order_exact** — every store, every type selection and filter, every plain name and direction: when every
+selected object has the name SOMEWHERE (at whatever path, each object its own) with an integer value `g r`, the request
+answers, and the answer is the selection stably sorted by `g` in the requested direction.  (C13-KF2 is the complement:
+some selected object lacks the name or the values are of mixed type.) -/
+theorem plain_name_order_exact (rows : List Record) (q : Request) (a : String) (d : Dir) (g : Record → Int)
+    (hwf : ∀ f, q.filter = some f → WFFilter f) (ho : q.order = some [{ attr := [a], dir := d }])
+    (hg : ∀ r ∈ select rows q.types q.filter,
+      ∃ kvs, r.toJVal = .dict kvs ∧ utilsGetNested (.dict kvs) (findAttrD a kvs) = .ok (.int (g r))) :
+    serviceQuery rows q = .ok (query (fun _ => g) rows q.types q.filter q.order) := by
+  apply query_exact_int (fun _ => g) rows q hwf
+  intro ks hks r hr k hk
+  rw [ho] at hks
+  cases hks
+  simp only [List.mem_singleton] at hk
+  subst hk
+  obtain ⟨kvs, h1, h2⟩ := hg r hr
+  unfold orderKeyOf
+  simp only [h1]
+  exact h2
+
+/-- **order_key_is_per_object** (regenerated obligation, `Generated.LdmSections.orderKeyShared`: an `ast` pass over
+`LDMService.order_search_results`): the functions that compute an object's sort key read and write NO variable of the
+enclosing method and nothing of `self` - the key of an object depends on the object and the order tuple alone, which is
+what `orderKeyOf r k` (a function of ONE record) models.  A cache shared by the key computations of one request (the path
+located in the first object) re-opens this. -/
+theorem order_key_is_per_object : Generated.LdmSections.orderKeyShared = [] := by decide
+
+def gdtPlain : OrderKey := { attr := ["generationDeltaTime"], dir := .asc }
+
+/-- the variant that locates the path ONCE per request - in the first object compared - and reuses it for all objects -/
+def sortByKeyCachedPath (rows : List Record) (k : OrderKey) : Except Err (List Record) :=
+  match k.attr, rows with
+  | [a], r0 :: _ =>
+    match r0.toJVal with
+    | .dict kvs => do
+      let path := findAttrD a kvs
+      let keyed ← rows.mapM (fun r => do let v ← utilsGetNested r.toJVal path; pure (r, v))
+      let sorted ← pySorted keyed (k.dir == .desc)
+      pure (sorted.map (·.1))
+    | _ => sortByKey rows k
+  | _, _ => sortByKey rows k
+
+/-- non-vacuity of `plain_name_order_exact` and witness: CAM + VAM ordered by the plain name `generationDeltaTime` - the
+code as it is answers with the objects in order; with a path located once (`cam.generationDeltaTime`, from the first
+object) the VAM's key is None and the sort raises TypeError; on a homogeneous selection the two cannot be told apart -/
+theorem plain_name_heterogeneous_witness :
+    serviceQuery [rec "cam" 1 5, rec "vam" 2 1, rec "cam" 3 8]
+      { app := 2, types := [2, 16], prio := none, orderBad := false, order := some [gdtPlain],
+        filterBad := false, filter := none } = .ok [rec "vam" 2 1, rec "cam" 1 5, rec "cam" 3 8] ∧
+    sortByKeyCachedPath [rec "cam" 1 5, rec "vam" 2 1, rec "cam" 3 8] gdtPlain = .error .typeError ∧
+    sortByKeyCachedPath [rec "cam" 1 5, rec "cam" 2 1, rec "cam" 3 8] gdtPlain
+      = sortByKey [rec "cam" 1 5, rec "cam" 2 1, rec "cam" 3 8] gdtPlain := by
+  decide
+
 /-! ## the same objects for the same history - when several threads make the history (round 4)
 
 The in-memory back-end is used by provider threads (insert / update), the maintenance thread (remove by value, remove by
